@@ -179,7 +179,7 @@ func authDataMember(files []aFile) aMember {
 			m.Entries = append(m.Entries, e)
 		}
 	})
-	m.Bytes = gz(raw)
+	m.Bytes = gzShaped(raw, true)
 	return m
 }
 
@@ -229,7 +229,43 @@ func authControlMember(p aPkg, a aAlt, data []byte) aMember {
 		tw.WriteHeader(&tar.Header{Name: ".PKGINFO", Mode: 0o644, Size: int64(len(info)), Typeflag: tar.TypeReg, ModTime: time.Unix(0, 0)})
 		tw.Write([]byte(info))
 	})
-	return aMember{Bytes: gz(raw), Info: info}
+	return aMember{Bytes: gzShaped(raw, false), Info: info}
+}
+
+// gzShaped compresses a section the way one of several packers would: the choice is a function of the content, so a
+// case replays identically.  Levels, header fields (FNAME, FEXTRA, FCOMMENT, mtime), several deflate blocks — and, for a
+// data section only (multi = true), TWO gzip members (the tar cut at a block boundary): `ExpandApk` hashes and unpacks
+// everything after the control member whatever the number of members is.
+func gzShaped(raw []byte, multi bool) []byte {
+	d := sha1.Sum(raw) //nolint:gosec
+	one := func(b []byte, v byte) []byte {
+		var o bytes.Buffer
+		lv := []int{gzip.BestSpeed, gzip.NoCompression, gzip.BestCompression, gzip.HuffmanOnly, gzip.DefaultCompression}[int(v)%5]
+		zw, _ := gzip.NewWriterLevel(&o, lv)
+		if v&8 != 0 {
+			zw.Name = "section.tar"
+		}
+		if v&16 != 0 {
+			zw.Extra = []byte{'A', 'P', 4, 0, 1, 2, 3, 4}
+		}
+		if v&32 != 0 {
+			zw.Comment = "packed by the harness"
+			zw.ModTime = time.Unix(1600000000+int64(v), 0)
+		}
+		if v&64 != 0 && len(b) > 1024 {
+			zw.Write(b[:512])
+			zw.Flush()
+			b = b[512:]
+		}
+		zw.Write(b)
+		zw.Close()
+		return o.Bytes()
+	}
+	if multi && d[1]%3 == 0 && len(raw) >= 1024 {
+		k := (len(raw) / 1024) * 512
+		return append(one(raw[:k], d[0]), one(raw[k:], d[2])...)
+	}
+	return one(raw, d[0])
 }
 
 func authSigMember() []byte {
